@@ -126,6 +126,29 @@ func removeEmptyDirs(fs afero.Fs, root, dir string) {
 	}
 }
 
+// holdsObject reports whether a regular file is stored in dir or anywhere
+// below it. A directory that holds none is the common prefix of no key: it is
+// what is left when the last object below it was deleted and the directory
+// itself could not be removed (an I/O error, say). A directory that cannot be
+// read is taken to hold something.
+func holdsObject(fs afero.Fs, dir string) bool {
+	entries, err := afero.ReadDir(fs, dir)
+	if err != nil {
+		return true
+	}
+	for _, entry := range entries {
+		if !entry.IsDir() {
+			return true
+		}
+	}
+	for _, entry := range entries {
+		if holdsObject(fs, filepath.Join(dir, entry.Name())) {
+			return true
+		}
+	}
+	return false
+}
+
 // removeNewEmptyDirs cleans up after a MkdirAll(dir) that failed half-way: the
 // leading directories it did create are removed again if they are empty, so
 // that a refused upload leaves no directory behind that listings would report
